@@ -23,6 +23,12 @@ CHECKS = {
             "Bounded: DAGs <= 4 (5) nodes, digraphs <= 3 inner nodes, k <= 5; graph algorithms run concretely per enumerated graph.", "z3; spec encodings", "5/C09"),
     "C12": (MC, "z3 on the LP rows produced by each helper on a raw SolverWrapper: soundness and completeness (canonical witness for auxiliaries) over all variable values; bound/objective op sequences vs snapshot",
             "Bounds enumerated (they must be concrete to cross into HiGHS); values symbolic.", "z3; highspy getLp()", "5/C12"),
+    "C07": (TV, "certified optimum of the captured LP (z3 decision queries) == certified optimum of an independent spec (route enumeration / Euler walks); per-edge errors and reported objective consistent for every optimal LP answer (z3) and through the real getters on solver-chosen answers",
+            "Bounded: DAGs <= 4 (5) nodes, digraphs <= 3 inner nodes, weights 0..4, k <= 3; cyclic spec multiplicity <= max weight + 1.", "z3; spec encodings; HiGHS optimum certified on the LP before use", "5/C07"),
+    "C08": (TV, "as C07 for the slack model (slack inequality on decoded solutions for every optimal LP answer; optimum vs spec), plus LP_k feasibility for k in {None, w*, w*+1} with w* the z3-certified covering number",
+            "Bounded as C07.", "z3; spec encodings", "5/C08"),
+    "C15": (TV, "captured MinGenSet/MinSetCover LPs vs direct z3 definitions: LP_k <=> Spec_k for every k, certified minimum, returned solution validated; legal tolerance-perturbed solver answers injected at the highspy boundary",
+            "Bounded: <= 4 numbers from <= 3 generators in 1..5, multiplicity <= 3; universes <= 5, <= 5 subsets.", "z3; plain brute-force validity checker for returned generating sets", "5/C15"),
     "C13": (MC, "CrossHair symbolic execution of the real search loops / abstract solve() over a symbolic outcome sequence (status per solver invocation, clock increments), plus status injection at the highspy boundary into the real classes",
             "Bounded: <= 5 solver invocations, 5-status alphabet; 'Confirmed over all paths' per harness with reachability twin.", "CrossHair/z3; k-model stubs validated by injected runs on the real classes", "5/C13"),
     "C14": (MC, "CrossHair symbolic execution of the real get_solution_walks/_reconstruct_eulerian_walk with a symbolic multiplicity per edge of enumerated universe graphs",
